@@ -162,9 +162,9 @@ Qed.
 Lemma bytes_eqb_nonempty a b : bytes_eqb a b = true -> b <> [] -> a <> [].
 Proof. destruct a, b; cbn; try discriminate; auto. Qed.
 
-Theorem hls_request_info_no_panic text : no_panic (hls_request_info text).
+Lemma hls_request_info_raw_no_panic text : no_panic (hls_request_info_raw text).
 Proof.
-  unfold hls_request_info. destruct (split_first ch_q text) as [path q].
+  unfold hls_request_info_raw. destruct (split_first ch_q text) as [path q].
   destruct (parse_url_path_spec path (match q with Some x => x | None => [] end)) as (u & -> & Hp & Hl & _). cbn [bind].
   destruct (file_name_type_ok (u_last u)) as (a & b & ->). cbn [bind].
   destruct (bytes_eqb b m3u8).
@@ -178,3 +178,11 @@ Proof.
     apply nth_error_None in En. lia.
   - destruct (bytes_eqb b ts_ext); reflexivity.
 Qed.
+
+Theorem hls_request_info_no_panic text : no_panic (hls_request_info text).
+Proof.
+  pose proof (hls_request_info_raw_no_panic text) as H. unfold hls_request_info.
+  destruct (hls_request_info_raw text) as [[[sn fn] ft]|e|x]; try exact H.
+  destruct (is_plain_path_element sn); reflexivity.
+Qed.
+
